@@ -122,6 +122,14 @@ def build_bases(tier: str) -> list[dict]:
     for b in multi:
         for how in ("CRLF", "CR", "mixed"):
             extra.append({"text": worldb.respell(b["text"], how), "spelling": how, "carrier": False})
+    # indentation spelled with tabs (a storage convention like the newline spelling)
+    n_tab = 0
+    for b in bases:
+        if "\n " in b["text"] and (b["carrier"] or n_tab < cfg["spell_bases"]):
+            t = worldb.retab(b["text"])
+            if t is not None and t != b["text"]:
+                extra.append({"text": t, "spelling": "TAB", "carrier": b["carrier"]})
+                n_tab += not b["carrier"]
     seen = set()
     out = []
     for b in bases + extra:
